@@ -136,6 +136,14 @@ type Gen[K comparable, V any] interface {
 	Keys() []K
 }
 
+// a type parameter whose constraint is an inline union mixing a non-nillable and a nillable term,
+// instantiated with the nillable one
+type GenU[T ~string | ~[]byte] interface {
+	Load(k string) (T, error)
+	Echo(v T) T
+	Many(vs ...T) (T, bool)
+}
+
 type VarOne interface {
 	Ints(xs ...int) int
 	Strs(prefix string, xs ...string) string
@@ -161,7 +169,7 @@ type mIface struct {
 	TypeArgs string // "" or "[string, int]"
 }
 
-var mIfaces = []mIface{{"Types", ""}, {"Prefixes", ""}, {"Deep", ""}, {"Basic", ""}, {"Nillables", ""}, {"Shadow", ""}, {"ShadowR", ""}, {"Twins", ""}, {"Embeds", ""}, {"Gen", "[string, int]"}, {"VarOne", ""}, {"VarTwo", ""}, {"VarVoid", ""}}
+var mIfaces = []mIface{{"Types", ""}, {"Prefixes", ""}, {"Deep", ""}, {"Basic", ""}, {"Nillables", ""}, {"Shadow", ""}, {"ShadowR", ""}, {"Twins", ""}, {"Embeds", ""}, {"Gen", "[string, int]"}, {"GenU", "[[]byte]"}, {"VarOne", ""}, {"VarTwo", ""}, {"VarVoid", ""}}
 
 type mVariant struct {
 	Name  string
